@@ -100,17 +100,20 @@ CLAIMED = {
          "is a loop-free Kani harness. NOT covered by a proof: the body of from_tzif (chunks_exact/zip, from_be_bytes conversions).",
     note=TB + "lookups are proved for timestamps whose UTC year is within +-5_879_500; that from_tzif returns only validated data is a syntactic check of its source text on every run (single Ok exit `x.validate()?; Ok(x)`), not a proof; parse_int (generic over FromStr) is declared, not extracted: assumed not to panic on valid UTF-8 (that its argument is valid UTF-8 is proved); three UTF-8 axioms and the totality of str::from_utf8/starts_with/ends_with/contains/trim_matches are trusted; 64-bit usize; Offset::resolve's fallback is outside (cfg(unix), fs).", ref="5 C19"),
  'C11': dict(
-    category='other', engine='kani',
-    technique='per-row loop-free Kani/CBMC harnesses over full-domain symbolic values on the real format_date_part / format_time_part, renderers and calendar getters replaced by recording stubs (-Z stubbing)',
-    text="Partial, by construction: for each numeric symbol (h H K k m s d w D y M q e X x) and each width 1..=10 one loop-free Kani harness "
-         "calls the real format_date_part / format_time_part with the concrete pattern part and full-domain symbolic time of day / day / "
-         "offset and asserts the symbol-table row: which field is rendered, at which width (incl. the fall-back for over-long runs), and for the "
-         "zone symbols which of hour/minute/second in which order. A loop-free harness over the full input domain is complete for its row. "
-         "Quick tier: 55 rows; thorough: all 125. Level 'other' because the rendered text itself is outside both verifiers here.",
-    note="NOT covered: the characters produced by zero_padded/format!, sign/colon/Q/ordinal glue, the English name tables (MMM.., eee.., a, b, G), "
-         "yy, qqq/qqqq, the sub-second n rows (CBMC does not finish), the tokenizer parse_format_string, quoting and the assembly in format(). "
-         "Trusted: Kani 0.68/CBMC 6.11; stubs for zero_padded, zero_padded_i, alloc::fmt::format (record value,width); days_to_date/doy/wday/wyear "
-         "replaced by arbitrary in-range values (their correctness is C01/C02); checks located in std/kani_lib.c are ignored (stub artefact).", ref="5 C11"),
+    category='proof', engine='verus+kani',
+    technique='contract-based deductive verification (Verus/Z3) of the part renderers extracted mechanically from /repo with their format! calls kept (literal and arguments visible); plus per-row loop-free Kani/CBMC harnesses over full-domain symbolic values on the real format_date_part / format_time_part with recording stubs (-Z stubbing)',
+    text="Per pattern part: Verus proves that the real format_part / format_date_part / format_time_part / format_month / format_wday / "
+         "format_period / format_zone / zero_padded_i / add_ordinal_indicator / get_length return exactly the text the documented symbol table "
+         "prescribes (spec part_text written from the table: zero-padded getter values at the stated or default width, English names, era, "
+         "AM/PM/noon/midnight, Qn / nth quarter, yy, sub-second digits, zone forms with sign, colons and optional seconds), for every day number, "
+         "time of day, offset and run length. format! calls are kept as verif_fmtN(literal, args) with {} substitution defined in the spec "
+         "(fmt_spec) and per-literal lemmas proved from it. In addition 176 (quick: 86) loop-free Kani rows check value/width/order on the real "
+         "str-handling code with recording stubs. Level proof for the parts; whole patterns (tokenizer, quoting, concatenation) are not covered.",
+    note=TB + "NOT covered: parse_format_string (tokenizer), quoted text and '' handling, the flat_map/collect assembly in the three format() methods; yy for "
+         "years before 1. Trusted for the Verus part: format! with plain {} placeholders concatenates the Display texts; zero_padded ({:0width$}) is the "
+         "zero-padded decimal; 10_u32.pow; the ASCII meaning of chars().next(), str/String::len, to_string, &s[k..], parse::<i32>() (declared wrappers, N8 "
+         "substitutions listed in the evidence); const-array `.into_iter().nth(i).unwrap()` written as indexing. Trusted for the rows: Kani 0.68/CBMC 6.11; "
+         "stubs for zero_padded, zero_padded_i, alloc::fmt::format; calendar getters replaced by arbitrary in-range values; checks located in std/kani_lib.c ignored.", ref="5 C11"),
  'C15': dict(
     text="Verus proves Ok iff valid and Err(OutOfRange) with value == offending argument outside [min,max] for validate_date/doy/time, "
          "time_to_day_seconds, tm::set_*, Time::from_hms/from_seconds/from_nanos, DateTime/Date::from_ymd(hms), all set_* on the three types, "
@@ -159,8 +162,8 @@ def main():
             'add_only': True,
         },
         'engines': [
-            {'name': 'verus', 'path': '/verif/check', 'serves_properties': sorted(k for k in CLAIMED if k != 'C11'), 'kind_free_text': 'deductive verifier (Verus 0.2026.09.13 / Z3) on functions extracted from /repo each run'},
-            {'name': 'kani', 'path': '/verif/tools/kani_engine.py', 'serves_properties': ['C11'], 'kind_free_text': 'Kani 0.68 / CBMC 6.11 loop-free harnesses injected into a scratch copy of /repo'},
+            {'name': 'verus', 'path': '/verif/check', 'serves_properties': sorted(CLAIMED), 'kind_free_text': 'deductive verifier (Verus 0.2026.09.13 / Z3) on functions extracted from /repo each run'},
+            {'name': 'kani', 'path': '/verif/tools/kani_engine.py', 'serves_properties': ['C11', 'C18', 'C19'], 'kind_free_text': 'Kani 0.68 / CBMC 6.11 harnesses injected into a scratch copy of /repo: loop-free rows (C11), Header::parse (complete) and bounded from_tzif stand-ins (C18, C19)'},
         ],
         'checks': checks,
         'not_applicable': na,
